@@ -474,13 +474,22 @@ def _spec(case, out):
             f, evs = {"rec": "-"}, []
         # ---- the output stream: the selected branch, alone, from its start state
         exp = None
+        lenient = False
         if st["ref"] is not None:
             before = st["ref"].wake
+            # a branch with an explicitly empty validity gate is also evaluated at activation when none of its
+            # inputs is valid (a documented runtime choice, not part of the property): either reading is accepted
+            lenient = (st["ref"].first and st["ref"].unchecked and st["ref"].wake != now
+                       and all(val[p] is None for p in st["ref"].binds))
+            if lenient:
+                feats.add("unchecked-branch-activated-without-valid-input")
             exp = st["ref"].cycle(now, val, tick)
             if before == now and not switch:
                 feats.add("timer-wake-fired")
         rec = f.get("rec", "-")
         want = "-" if exp is None else str(exp)
+        if lenient and rec == "-":
+            want, exp = "-", None
         if rec != want:
             bad.append("[C12-follows] cycle %d: recorded %s, the selected branch %s (key %s) run alone from a fresh state "
                        "gives %s" % (now - 1, rec, st["branch"], st["cur"], want))
